@@ -337,6 +337,27 @@ func backendMain(args []string) int {
 			rec.Problems = append(rec.Problems, "PutObject error not returned by Store")
 		}
 		fs.failPut = false
+		// the failed name is stored again once the fault has cleared: it must really be written
+		if err := pp.Store(ctx, "ERRNAME", []byte("zz")); err != nil {
+			rec.Problems = append(rec.Problems, "Store of a name whose earlier PutObject failed: "+err.Error())
+		} else if b, lerr := pp.Load(ctx, "ERRNAME"); lerr != nil || !bytes.Equal(b, []byte("zz")) {
+			rec.Problems = append(rec.Problems, "Store of a name whose earlier PutObject failed reported success but the name does not load")
+		}
+		// the same Persist value used under another prefix: the name is written there too
+		p2 := p
+		p2.Prefix = pfx + "other/"
+		if err := (&p2).Store(ctx, "OKNAME2", []byte("yy")); err == nil {
+			if err := pp.Store(ctx, "OKNAME2", []byte("yy")); err != nil {
+				rec.Problems = append(rec.Problems, "Store under the original prefix failed: "+err.Error())
+			}
+			fs.mu.Lock()
+			_, ok1 := fs.objs[bucket+"/"+pfx+"other/OKNAME2"]
+			_, ok2 := fs.objs[bucket+"/"+pfx+"OKNAME2"]
+			fs.mu.Unlock()
+			if !ok1 || !ok2 {
+				rec.Problems = append(rec.Problems, "a name stored through two prefixes of one Persist value is not present under both")
+			}
+		}
 		// a PutObject that fails once after the body was sent (time-out, connection reset, throttling, denial): Store
 		// must either report the error, or - if it tries again by itself - leave exactly the bytes under the name
 		for ci, code := range []string{"RequestTimeout", "RequestError", "ResponseTimeout", "Throttling", "SlowDown", "AccessDenied"} {
@@ -394,12 +415,34 @@ func fileChild(args []string) int {
 			}
 		}
 		lim := syscall.Rlimit{Cur: uint64(limit), Max: uint64(limit)}
+		if len(args) > 5 && args[5] == "retry" {
+			lim.Max = ^uint64(0)
+		}
 		if err := syscall.Setrlimit(syscall.RLIMIT_FSIZE, &lim); err != nil {
 			fmt.Println("setrlimit:", err)
 			return 3
 		}
 	}
 	err := file.NewPersistForPath(dir).Store(context.Background(), name, b)
+	if len(args) > 5 && args[5] == "retry" && limit >= 0 {
+		// the same process tries again once the disk has room (only the soft limit was lowered)
+		lim := syscall.Rlimit{Cur: ^uint64(0), Max: ^uint64(0)}
+		if e := syscall.Setrlimit(syscall.RLIMIT_FSIZE, &lim); e != nil {
+			fmt.Println("setrlimit back:", e)
+			return 3
+		}
+		first := "ok"
+		if err != nil {
+			first = "err"
+		}
+		err2 := file.NewPersistForPath(dir).Store(context.Background(), name, b)
+		if err2 != nil {
+			fmt.Println("RETRY-ERR first="+first, err2)
+			return 1
+		}
+		fmt.Println("RETRY-OK first=" + first)
+		return 0
+	}
 	if err != nil {
 		fmt.Println("ERR", err)
 		return 1
@@ -457,6 +500,24 @@ func crashMain(args []string) int {
 				}
 				os.RemoveAll(dir)
 				enc.Encode(rec)
+				if variant == "ignore" && k < ln {
+					// an I/O error at byte k, then the SAME process stores the node again: a write that reports success
+					// is complete (nothing remembered from the failed attempt may skip it)
+					os.MkdirAll(dir, 0755)
+					rec3 := beRec{Backend: "file", Case: "retry", Name: nm, Len: ln, K: k, Variant: "retry", Problems: []string{}}
+					out3, err3 := exec.Command(self, "filechild", dir, nm, hex.EncodeToString(b), strconv.Itoa(k), "ignore", "retry").CombinedOutput()
+					o3 := strings.TrimSpace(string(out3))
+					got3, lerr3 := file.NewPersistForPath(dir).Load(ctx, nm)
+					if err3 == nil && strings.HasPrefix(o3, "RETRY-OK") {
+						if lerr3 != nil || !bytes.Equal(got3, b) {
+							rec3.Problems = append(rec3.Problems, fmt.Sprintf("the write was cut at byte %d with an I/O error, the same process stored the node again and was told it succeeded (%s), but Load does not return the complete bytes", k, o3))
+						}
+					} else if lerr3 == nil && !bytes.Equal(got3, b) {
+						rec3.Problems = append(rec3.Problems, fmt.Sprintf("after a failed retry (%s) Load returns %d of %d bytes", o3, len(got3), ln))
+					}
+					os.RemoveAll(dir)
+					enc.Encode(rec3)
+				}
 			}
 		}
 	}
